@@ -113,6 +113,54 @@ macro_rules! runner {
     }};
 }
 
+macro_rules! runner_echo {
+    ($name:ident) => {{
+        fn run(ticks: &crate::canon::Ticks) -> crate::canon::Frames {
+            let a = Feed::new();
+            let buf: RefCell<Vec<V>> = RefCell::new(vec![]);
+            let echoed: RefCell<Vec<i64>> = RefCell::new(vec![]);
+            let mut frames = Vec::with_capacity(ticks.len());
+            {
+                let mut outputs = emb::$name::$name::EmbeddedOutputs {
+                    out: |x| buf.borrow_mut().push(Canon::canon(&x)),
+                    echo: |x: i64| echoed.borrow_mut().push(x),
+                };
+                let mut flow = emb::$name::$name(a.clone(), &mut outputs);
+                for t in ticks {
+                    a.push_all(t[0].iter().map(|&i| FromItem::from_item(i)));
+                    flow.run_tick_sync();
+                    frames.push(std::mem::take(&mut *buf.borrow_mut()));
+                }
+            }
+            // the echo must be exactly the unrelated input (sanity of the harness wiring)
+            let fed: Vec<i64> = ticks.iter().flat_map(|t| t[0].iter().map(|i| i.1)).collect();
+            assert_eq!(*echoed.borrow(), fed, "echo output differs from the input");
+            frames
+        }
+        run as RunFn
+    }};
+}
+
+macro_rules! f1e {
+    ($name:ident, $out:expr, $reference:expr) => {
+        Flow {
+            name: stringify!($name),
+            n_in: 1,
+            pair: [false, false],
+            out: $out,
+            run: runner_echo!($name),
+            reference: $reference,
+            c28: false,
+            c29: false,
+            key_local: false,
+            c32: false,
+            weak: [Weak::default(); 2],
+            hist_invariant: false,
+            promise: Promise::None,
+        }
+    };
+}
+
 macro_rules! f1 {
     ($name:ident, $pair:expr, $out:expr, $reference:expr) => {
         Flow {
@@ -263,6 +311,9 @@ pub fn table() -> Vec<Flow> {
         f1!(f_bounded_count_cross, false, Seq, |i| vl(xs(i).into_iter().map(|x| vp(x, 3)).collect()))
             .c28()
             .c29(),
+        f1!(f_filter_not_in, false, Seq, |i| seq(xs(i).into_iter().filter(|x| *x != 1 && *x != 3)))
+            .c28()
+            .c29(),
         f1!(f_bounded_fold_chain, false, Seq, |i| seq([3].into_iter().chain(xs(i)))).c28().c29(),
         f1!(f_bounded_reduce_chain, false, Seq, |i| seq([18].into_iter().chain(xs(i)))).c28().c29(),
         f1!(f_flat_unordered, false, Bag, |i| bag(xs(i).into_iter().flat_map(|x| [vi(x), vi(-x)]).collect()))
@@ -338,6 +389,35 @@ pub fn table() -> Vec<Flow> {
             .collect()))
         .c28()
         .c29(),
+        // ---- joins with bounded operands ------------------------------------------------------
+        f1!(e_ks_join_unb, true, Keyed, |i| per_key_seq(&i[0], |k, vs| {
+            let ksv = match k {
+                0 => 10,
+                1 => 20,
+                _ => return vec![],
+            };
+            vs.iter().map(|v| vp(ksv, *v)).collect()
+        }))
+        .c28()
+        .c29()
+        .key_local(),
+        f1!(e_bl_ur_join, true, Bag, |i| bag(join_bag(&BUILD, &i[0]))).c28(),
+        f1!(e_bl_ur_cross, false, Bag, |i| bag(xs(i).into_iter().flat_map(|x| [vp(10, x), vp(20, x)]).collect()))
+            .c28(),
+        f1!(e_ul_br_cross, false, Seq, |i| vl(xs(i).into_iter().flat_map(|x| [vp(x, 10), vp(x, 20)]).collect()))
+            .c28()
+            .c29(),
+        f1e!(e_bb_nested, Seq, |_| vl([1, 2].into_iter().flat_map(|l| [10, 20, 30].map(|r| vp(l, r))).collect()))
+            .c28()
+            .c29(),
+        f1e!(e_bb_cross, Seq, |_| vl([1, 2].into_iter().flat_map(|l| [10, 20, 30].map(|r| vp(l, r))).collect()))
+            .c28()
+            .c29(),
+        f1e!(e_bb_join, Seq, |_| vl(join_bag(&[(0, 1), (1, 2), (1, 3)], &BUILD))).c28().c29(),
+        f1e!(e_bb_repeat, Keyed, |_| keyed([(1, vi(7)), (1, vi(8)), (2, vi(7)), (2, vi(8))])).c28().c29(),
+        f1e!(e_bb_ks_join, Keyed, |_| keyed([(1, vp(10, 100)), (2, vp(20, 200)), (1, vp(10, 101))]))
+            .c28()
+            .c29(),
         // ---- keyed --------------------------------------------------------------------------
         f1!(f_k_fold, true, LastSorted, |i| per_key(&i[0], |_, vs| Some(vi(fold31(vs.iter().copied())))))
             .c28(),
